@@ -430,7 +430,9 @@ def theorem_names(module_path):
         if m and ns and ns[-1].split(".")[-1] == m.group(1).split(".")[-1]:
             ns.pop()
             continue
-        m = re.match(r"\s*(?:@\[[^\]]*\]\s*)?(?:private\s+|protected\s+)?theorem\s+(\S+)", line)
+        if re.match(r"\s*(?:@\[[^\]]*\]\s*)?private\s+theorem\s", line):
+            continue          # private helpers are not property theorems (and cannot be named from outside)
+        m = re.match(r"\s*(?:@\[[^\]]*\]\s*)?(?:protected\s+)?theorem\s+(\S+)", line)
         if m:
             names.append(".".join(ns + [m.group(1)]))
     return names
